@@ -5811,10 +5811,19 @@ impl BytecodeVM {
                     );
                 }
 
-                // Handle __proto__ special property - return prototype
+                // Handle __proto__ special property - return prototype.
+                // An own data property of that name (e.g. created by JSON.parse) shadows
+                // the inherited accessor.
                 if let JsValue::String(k) = key
                     && k.as_str() == "__proto__"
                 {
+                    let own = obj_ref
+                        .borrow()
+                        .get_own_property(&PropertyKey::String(k.cheap_clone()))
+                        .map(|p| p.value.clone());
+                    if let Some(value) = own {
+                        return Ok(Guarded::unguarded(value));
+                    }
                     return Ok(Guarded::unguarded(
                         obj_ref
                             .borrow()
